@@ -175,8 +175,7 @@ func c11Final(e *driver.Env) {
 	}
 	if p.Stage == "Emit" {
 		freq := planInterval(p)
-		// C11.b: the function is called at most once per tick: by the time the
-		// call with index i happens, i+1 ticks have elapsed …
+		// C11.b: the function is called at most once per tick …
 		for i, c := range s.Calls.List {
 			// … and never twice within one period: two calls are at least one
 			// frequency apart
@@ -185,11 +184,8 @@ func c11Final(e *driver.Env) {
 					"frequency %v: calls %d and %d at %v and %v", freq, i, i+1, s.Calls.List[i-1].VT, c.VT)
 				return
 			}
-			if c.VT < time.Duration(i+1)*freq {
-				e.Failf("C11.b", "Emit called its function more than once per frequency tick",
-					"frequency %v: call number %d at %v, before %d ticks had elapsed", freq, i+1, c.VT, i+1)
-				return
-			}
+			// (when within its period a call happens is Emit's business: only
+			// the availability of the value is tied to the tick count, below)
 		}
 		// … so the k-th value (counting from 1) is never available before k ticks
 		for k, o := range s.Out.Got {
